@@ -31,6 +31,16 @@ type nrRes struct{ cpu, mem int64 } // milli-cpu, bytes
 
 var nrExtNames = []corev1.ResourceName{extension.BatchCPU, extension.BatchMemory, extension.MidCPU, extension.MidMemory}
 
+// nrShort is the resource name without its domain (signatures must not contain '/').
+func nrShort(rn string) string {
+	for i := len(rn) - 1; i >= 0; i-- {
+		if rn[i] == '/' {
+			return rn[i+1:]
+		}
+	}
+	return rn
+}
+
 // ---------------------------------------------------------------- effective strategy (harness model of the layering)
 
 type nrEff struct {
@@ -309,19 +319,23 @@ func (in *nrInputs) nodeBound(cpu bool) nrBound {
 
 func nrFits(v, bound int64) bool { return v <= nrMax0(bound)+1 }
 
-// classify names the consumption term whose omission explains the excess (for the violation signature).
-func (b *nrBound) classify(v int64) string {
-	switch {
-	case nrFits(v, b.bound+b.noMetric):
-		return "pod-without-metric-not-charged"
-	case nrFits(v, b.bound+b.dangling):
-		return "dangling-metric-not-charged"
-	case nrFits(v, b.bound+b.host):
-		return "host-app-not-charged"
-	case nrFits(v, b.bound+b.sysExtra):
-		return "system-usage-not-charged"
-	case nrFits(v, b.bound+b.margin):
-		return "margin-not-charged"
+// classify names the consumption term whose omission explains the excess (for the violation signature): first a term
+// whose omission reproduces the value exactly (up to the rounding unit), then any term large enough.
+func (b *nrBound) classify(v, slack int64) string {
+	cands := []struct {
+		name string
+		term int64
+	}{{"pod-without-metric-not-charged", b.noMetric}, {"dangling-metric-not-charged", b.dangling}, {"system-usage-not-charged", b.sysExtra},
+		{"host-app-not-charged", b.host}, {"margin-not-charged", b.margin}}
+	for _, c := range cands {
+		if d := v - nrMax0(b.bound+c.term); c.term > 0 && d >= -1 && d <= 1 {
+			return c.name
+		}
+	}
+	for _, c := range cands {
+		if c.term > 0 && nrFits(v-slack, b.bound+c.term) {
+			return c.name
+		}
 	}
 	return "over"
 }
@@ -332,6 +346,14 @@ func (b *nrBound) String() string {
 }
 
 // ---------------------------------------------------------------- per-reconcile checks
+
+// deferFail remembers the first violation of a recorded defect class; it is reported when the run ends.
+func (s *nrSim) deferFail(oracle, detail, msg string) {
+	s.r.Probe("recorded-defect-seen")
+	if s.deferred == nil {
+		s.deferred = &[3]string{oracle, detail, msg}
+	}
+}
 
 func nrUnit(cpu bool) string {
 	if cpu {
@@ -370,10 +392,12 @@ func (s *nrSim) checkReconcile(req reconcile.Request, c *nrCapture, err error) {
 		for i := range in.cons {
 			if con := &in.cons[i]; con.kind == "nometric" && ((eff.cpuPol == "maxUsageRequest" && con.req.cpu > 0) || (eff.memPol == "maxUsageRequest" && con.req.mem > 0)) {
 				r.Tag("maxusagereq-pod-without-metric")
+				s.tagNoMetric = true
 			}
 		}
 		if eff.memPol == "request" && in.sys.mem > in.reserved.mem {
 			r.Tag("mem-request-policy-system-usage-above-reservation")
+			s.tagMemReq = true
 		}
 	}
 	if in.stale {
@@ -411,11 +435,11 @@ func (s *nrSim) checkNodeValues(name, mode string, node *corev1.Node, in *nrInpu
 		cpu := rn == extension.BatchCPU || rn == extension.MidCPU
 		batch := rn == extension.BatchCPU || rn == extension.BatchMemory
 		if v < 0 {
-			r.Fail("negative", string(rn), "node %s %s: %s = %d", name, mode, rn, v)
+			r.Fail("negative", nrShort(string(rn)), "node %s %s: %s = %d", name, mode, rn, v)
 		}
 		if in.stale {
 			if v != 0 {
-				r.Fail("stale-not-reset", mode+"/"+string(rn), "node %s: metric is stale at the reconcile (now %s, degrade %dm) but %s = %d is %s", name, in.now.Format(time.RFC3339), in.eff.degradeMin, rn, v, map[string]string{"write": "written", "kept": "left published"}[mode])
+				r.Fail("stale-not-reset", mode+"/"+nrShort(string(rn)), "node %s: metric is stale at the reconcile (now %s, degrade %dm) but %s = %d is %s", name, in.now.Format(time.RFC3339), in.eff.degradeMin, rn, v, map[string]string{"write": "written", "kept": "left published"}[mode])
 			}
 			continue
 		}
@@ -441,7 +465,24 @@ func (s *nrSim) checkNodeValues(name, mode string, node *corev1.Node, in *nrInpu
 			}
 		}
 		if !nrFits(v-slack, b.bound) {
-			r.Fail("bound", mode+"/"+nrUnit(cpu)+"/"+b.pol+"/"+b.classify(v-slack), "node %s: %s = %d (%s) exceeds %s", name, rn, v, mode, b.String())
+			msg := fmt.Sprintf("node %s: %s = %d (%s) exceeds %s", name, rn, v, mode, b.String())
+			// the two recorded defects (known_findings.jsonl), seen on exactly the histories that trigger them and
+			// explained by exactly the term they drop, are reported at the end of the run so that they cannot hide a
+			// different violation later in the same run
+			class, recorded := "", false
+			switch {
+			case s.tagNoMetric && b.pol == "maxUsageRequest" && nrFits(v-slack, b.bound+b.noMetric):
+				class, recorded = "pod-without-metric-not-charged", true
+			case s.tagMemReq && !cpu && b.pol == "request" && nrFits(v-slack, b.bound+b.sysExtra):
+				class, recorded = "system-usage-not-charged", true
+			default:
+				class = b.classify(v, slack)
+			}
+			if recorded {
+				s.deferFail("bound", mode+"/"+nrUnit(cpu)+"/"+b.pol+"/"+class, msg)
+				continue
+			}
+			r.Fail("bound", mode+"/"+nrUnit(cpu)+"/"+b.pol+"/"+class, "%s", msg)
 		}
 		if b.noMetric > 0 {
 			r.Probe("bound-with-pod-without-metric")
@@ -500,7 +541,7 @@ func (s *nrSim) checkZones(name string, w nrNRTWrite, c *nrCapture, in *nrInputs
 			// written amount in milli-units of the resource's own unit (batch-cpu counts milli-cores, memory bytes)
 			vMilli := ri.Allocatable.MilliValue()
 			if vMilli < 0 {
-				r.Fail("negative", "zone/"+rn, "node %s zone %s: %s = %s", name, zn.Name, rn, ri.Allocatable.String())
+				r.Fail("negative", "zone/"+nrShort(rn), "node %s zone %s: %s = %s", name, zn.Name, rn, ri.Allocatable.String())
 			}
 			var zcap int64
 			if bi := find(zr, base); bi != nil {
@@ -566,6 +607,10 @@ func (s *nrSim) checkZones(name string, w nrNRTWrite, c *nrCapture, in *nrInputs
 			}
 			if !okPct {
 				r.Fail("pct-cap", "zone/"+nrUnit(cpu), "node %s zone %s: %s = %s exceeds the configured cap %d%% of zone capacity %d", name, zn.Name, rn, ri.Allocatable.String(), *pct, zcap)
+			}
+			if !cpu && pol == "request" && s.tagMemReq && okPct {
+				s.deferFail("bound", "zone/"+nrUnit(cpu)+"/"+pol, fmt.Sprintf("node %s zone %s: %s = %s exceeds the zone bound (bound*12 = %d)", name, zn.Name, rn, ri.Allocatable.String(), boundL))
+				continue
 			}
 			r.Fail("bound", "zone/"+nrUnit(cpu)+"/"+pol, "node %s zone %s (%d zones): %s = %s exceeds zone capacity %d - margin %d - max(system usage %d, reservation %d)/%d - high-priority share; bound*12 = %d", name, zn.Name, Z, rn, ri.Allocatable.String(), zcap, margin, sys, res, Z, boundL)
 		}
@@ -790,7 +835,7 @@ func (s *nrSim) checkLiveness() {
 		r.Probe("liveness-metric-stale")
 		for _, rn := range nrExtNames {
 			if q, present := node.Status.Allocatable[rn]; present && q.Value() != 0 {
-				r.Fail("stale-liveness", string(rn), "node %s: metric stale since %s, now %s (sync period %ds, no fault since %s) but %s = %d is still published", n.name, staleAt.Format(time.RFC3339), now.Format(time.RFC3339), s.cfg.SyncSec, s.settleAt.Format(time.RFC3339), rn, q.Value())
+				r.Fail("stale-liveness", nrShort(string(rn)), "node %s: metric stale since %s, now %s (sync period %ds, no fault since %s) but %s = %d is still published", n.name, staleAt.Format(time.RFC3339), now.Format(time.RFC3339), s.cfg.SyncSec, s.settleAt.Format(time.RFC3339), rn, q.Value())
 			}
 		}
 		if nrt, _ := s.st.latest(nrKindNRT, "/"+n.name).(*topologyv1alpha1.NodeResourceTopology); nrt != nil {
@@ -798,7 +843,7 @@ func (s *nrSim) checkLiveness() {
 				for _, ri := range nrt.Zones[zi].Resources {
 					if (ri.Name == string(extension.BatchCPU) || ri.Name == string(extension.BatchMemory)) && !ri.Allocatable.IsZero() {
 						r.Tag("zone-amounts-published-when-metric-goes-stale")
-						r.Fail("stale-liveness", "zone/"+ri.Name, "node %s zone %s: metric stale since %s but zone amount %s = %s is still published in the NodeResourceTopology (node-level amounts are withdrawn)", n.name, nrt.Zones[zi].Name, staleAt.Format(time.RFC3339), ri.Name, ri.Allocatable.String())
+						r.Fail("stale-liveness", "zone/"+nrShort(ri.Name), "node %s zone %s: metric stale since %s but zone amount %s = %s is still published in the NodeResourceTopology (node-level amounts are withdrawn)", n.name, nrt.Zones[zi].Name, staleAt.Format(time.RFC3339), ri.Name, ri.Allocatable.String())
 					}
 				}
 			}
